@@ -1,10 +1,69 @@
 /-
   EG.Driver.Faults — model side of the `faults.*` correspondence streams (harness/src/m_faults.rs).
+
+  For the styled shapes that have a model (rectangle, circle, ellipse, rounded rectangle) the
+  number `n` of target calls of the fault-free run is the length of the model's call list — the
+  list `EG.C04.prefix_law` speaks about (every adapter forwards each call as exactly one call, so
+  `n` does not depend on the adapter stack) — and `tested` is the number of fault positions the
+  harness enumerates for that `n`. Other drawables return `none` (printed `skip`).
 -/
 import EG.Driver.Util
+import EG.Model.StyledRect
+import EG.Model.Circle
+import EG.Model.Ellipse
+import EG.Model.RoundedRect
 namespace EG.Driver
 open EG
 
-def handleFaults (_stream : String) (_t : Toks) : Option String := none
+private def fParseOptColor (s : String) : Option Color := if s == "-" then none else some (parseNat s)
+private def fAlignOf : Nat → StrokeAlignment | 0 => .inside | 1 => .center | _ => .outside
+
+private def Toks.fstyle (t : Toks) : Style × Toks :=
+  let (f, t) := t.str
+  let (s, t) := t.str
+  let (w, t) := t.nat
+  let (a, t) := t.nat
+  (⟨fParseOptColor f, fParseOptColor s, w, fAlignOf a⟩, t)
+
+/-- number of fault positions enumerated for a run of `n` calls: all when `n <= 48`, else the
+first 16, the last 16 and `16 + i*(n-32)/17` for `i = 1..16` (deduplicated). -/
+private def testedCount (n : Nat) : Nat :=
+  if n ≤ 48 then n
+  else
+    let ks := (List.range 16) ++ (List.range 16).map (fun i => n - 16 + i) ++
+      (List.range 16).map (fun i => 16 + (i + 1) * (n - 32) / 17)
+    ks.eraseDups.length
+
+def handleFaults (stream : String) (t : Toks) : Option String :=
+  if stream != "faults.shape" then none else
+  let (kind, t) := t.str
+  let calls? : Option (List Call) :=
+    match kind with
+    | "rect" =>
+      let (r, t) := t.rect
+      let (s, _) := t.fstyle
+      some (StyledRect.drawCalls s r)
+    | "circle" =>
+      let (p, t) := t.pt
+      let (d, t) := t.nat
+      let (s, _) := t.fstyle
+      some ((⟨p, d⟩ : Circle).drawStyled ⟨s.fill, s.stroke, s.width, s.align⟩)
+    | "ellipse" =>
+      let (p, t) := t.pt
+      let (sz, t) := t.sz
+      let (s, _) := t.fstyle
+      some ((⟨p, sz⟩ : Ellipse).drawStyled ⟨s.fill, s.stroke, s.width, s.align⟩)
+    | "rrect" =>
+      let (r, t) := t.rect
+      let (tl, t) := t.sz
+      let (tr, t) := t.sz
+      let (br, t) := t.sz
+      let (bl, t) := t.sz
+      let (s, _) := t.fstyle
+      some ((⟨r, ⟨tl, tr, br, bl⟩⟩ : RoundedRect).drawStyled s)
+    | _ => none
+  match calls? with
+  | some cs => some s!"n={cs.length} tested={testedCount cs.length}"
+  | none => none
 
 end EG.Driver
